@@ -91,6 +91,34 @@ func loadWorld(repo string, patterns []string, extDir string) (*World, error) {
 			w.addContractFile(c)
 		}
 	}
+	// contract files of repo packages that were loaded from export data only
+	// (callees of the functions under verification)
+	filepath.Walk(repo, func(path string, info os.FileInfo, err error) error {
+		if err != nil {
+			return nil
+		}
+		if info.IsDir() && (info.Name() == ".git" || info.Name() == "vendor" || info.Name() == "testdata") {
+			return filepath.SkipDir
+		}
+		if info.Name() != "zz_verif_contracts.go" {
+			return nil
+		}
+		rel, _ := filepath.Rel(repo, filepath.Dir(path))
+		pp := modPath + "/" + filepath.ToSlash(rel)
+		if _, done := w.pkgs[pp]; done {
+			return nil
+		}
+		if w.allTypes[pp] == nil {
+			return nil // package not in the import graph of this run
+		}
+		c, perr := parseContractFile(path, pp)
+		if perr != nil {
+			fmt.Fprintln(os.Stderr, "contract file:", perr)
+			return nil
+		}
+		w.addContractFile(c)
+		return nil
+	})
 	// external contracts
 	if extDir != "" {
 		files, _ := filepath.Glob(filepath.Join(extDir, "*.spec"))
@@ -681,7 +709,7 @@ func (w *World) sendHook(fr *Frame, st *State, in *ssa.Send) {
 				continue
 			}
 			env := fr.specEnv(st)
-			env.lookup = func(name string) (*Val, bool) { return fr.lookupLocal(st, name, in.Pos()) }
+			env.lookup = func(s *State, name string) (*Val, bool) { return fr.lookupLocal(s, name, in.Pos()) }
 			env.vars["sent"] = fr.val(st, in.X)
 			g, err := env.evalBool(expr)
 			if err != nil {
